@@ -202,28 +202,8 @@ func (c *Ctx) c08Backend(b BK) {
 			}
 			// R08.2 check-and-act
 			if b.Sharded {
-				look := -1
-				var lookEv *pw.Event
-				for i, ev := range p.Events {
-					if ev.Kind == pw.EvLoopBegin || ev.Kind == pw.EvLoopEnd {
-						look = -1
-					}
-					if isShardData(ev) && ev.Kind == pw.EvMapLookup {
-						look, lookEv = i, ev
-					}
-					if ev.Kind == pw.EvLock && look >= 0 && (ev.Op == "Unlock" || ev.Op == "RUnlock") && lockBucket(ev.Path) == bucketOf(lookEv) {
-						// section closed: later effects keyed by the same hash depend on a stale check
-						for j := i + 1; j < len(p.Events); j++ {
-							e2 := p.Events[j]
-							if e2.Kind == pw.EvLoopBegin || e2.Kind == pw.EvLoopEnd {
-								break
-							}
-							if isShardData(e2) && (e2.Kind == pw.EvMapDelete || e2.Kind == pw.EvMapInsert) && e2.Key == lookEv.Key {
-								report("R08.2", "split-check-act", c.Pos(e2.Pos), "map effect depends on a lookup made in an earlier critical section (the lock was released in between)", p)
-							}
-						}
-						look = -1
-					}
+				for _, e2 := range splitCheckActs(p) {
+					report("R08.2", "split-check-act", c.Pos(e2.Pos), "map effect depends on a lookup made in an earlier critical section (the lock was released in between)", p)
 				}
 			} else {
 				c.c08SyncMapRMW(m, p, report)
@@ -335,4 +315,33 @@ func (c *Ctx) c08SyncMapRMW(m string, p *pw.Path, report func(rule, kind, pos, m
 			}
 		}
 	}
+}
+
+// splitCheckActs returns the map effects (insert/delete) of a path that are keyed like an earlier lookup of the same
+// shard whose critical section was closed before the effect.
+func splitCheckActs(p *pw.Path) []*pw.Event {
+	var out []*pw.Event
+	look := -1
+	var lookEv *pw.Event
+	for i, ev := range p.Events {
+		if ev.Kind == pw.EvLoopBegin || ev.Kind == pw.EvLoopEnd {
+			look = -1
+		}
+		if isShardData(ev) && ev.Kind == pw.EvMapLookup {
+			look, lookEv = i, ev
+		}
+		if ev.Kind == pw.EvLock && look >= 0 && (ev.Op == "Unlock" || ev.Op == "RUnlock") && lockBucket(ev.Path) == bucketOf(lookEv) {
+			for j := i + 1; j < len(p.Events); j++ {
+				e2 := p.Events[j]
+				if e2.Kind == pw.EvLoopBegin || e2.Kind == pw.EvLoopEnd {
+					break
+				}
+				if isShardData(e2) && (e2.Kind == pw.EvMapDelete || e2.Kind == pw.EvMapInsert) && e2.Key == lookEv.Key {
+					out = append(out, e2)
+				}
+			}
+			look = -1
+		}
+	}
+	return out
 }
